@@ -4,7 +4,7 @@
    comments, character references).  [ents] is any well-formed table of named references that knows amp; lt; gt;. *)
 From Coq Require Import List NArith Bool.
 Import ListNotations.
-From Verif Require Import Val HtmlSpec HtmlEsc HtmlEscProofs.
+From Verif Require Import Val HtmlSpec HtmlEsc HtmlEscProofs Templates.
 Local Open Scope N_scope.
 
 (* ---- M1: textDefault --------------------------------------------------------------------------------------------- *)
@@ -92,6 +92,18 @@ Theorem C12_placeholder_forged_refuted :
   exists out, post true w_img false (escape w_forged) = Some out /\ html_text core_ents out <> w_forged.
 Proof. exact placeholder_forged_refuted. Qed.
 
+(* ---- the tag clean-ups of HTML5 / XHTML.processFileContent (after fix-3: ASCII classes) ------------------------------------ *)
+
+(* They only ever start at a "<": a string without one - in particular all escaped document text, with or without high-character
+   escaping - is returned unchanged (what they do between the templates' own tags is tied by correspondence only). *)
+Theorem C12_post_tags_text : forall x : str, ~ In 60 x -> post_html5 x = x /\ post_xhtml x = x.
+Proof. exact post_tags_text. Qed.
+
+Theorem C12_post_tags_escape :
+  forall (hi : bool) (s : str),
+    post_html5 (post_high hi (escape s)) = post_high hi (escape s) /\ post_xhtml (post_high hi (escape s)) = post_high hi (escape s).
+Proof. exact post_tags_escape. Qed.
+
 (* ---- M5: attribute context --------------------------------------------------------------------------------------------- *)
 
 (* Jinja2's "e" filter (fix-2 in the layout templates): the attribute value read back is s, and reading resumes right after
@@ -158,6 +170,14 @@ Proof. exact render_text_post. Qed.
 Theorem C12_render_raw_refuted :
   In (Markup [60; 115; 62]) (tokenize core_ents (node_str text_default escape_e id_str w_tpl w_doc)).
 Proof. exact render_raw_refuted. Qed.
+
+(* ---- the shipped templates (regenerated table Gen/Templates.v) -------------------------------------------------------------- *)
+
+(* Every output expression of the HTML5 (Jinja2) and XHTML (simpleTAL) templates, classified by HTML context and by the kind of
+   value: none writes the DOM text of a node unescaped, none puts a rendered node or unescaped text inside an attribute value,
+   a tag, a script/style element or a comment (reviewed exceptions outside the property's positions are listed in the file). *)
+Theorem C12_templates_ok : forallb emitter_ok emitters = true.
+Proof. exact templates_ok. Qed.
 
 (* ---- non-vacuity ------------------------------------------------------------------------------------------------------- *)
 
